@@ -828,7 +828,39 @@ def run_case(ctx):
         s = sum(Fraction(v) for v in vs)
         ctx.describe(f"discretize[{style}] total={total} weights={vs!r}",
                      len(vs) >= 2 and any((Fraction(v) * total / s).denominator != 1 for v in vs))
-        form = rng.choice(["list", "list", "tuple", "np"])
+        form = rng.choice(["list", "list", "tuple", "np", "ndarray", "ndarray", "readonly", "strided"])
+        if form in ("ndarray", "readonly", "strided") and all(isinstance(v, (int, float)) and abs(v) < 2**53 for v in vs):
+            # the weights as a numpy array of the caller's: a plain float64 array that the caller uses AGAIN (a second
+            # total; the rows of a weight table), a read-only one, a strided view (float32 weights are left out: the
+            # function's own arithmetic then runs at 24 bits and its closing assertion fires for large totals - loud)
+            if form == "strided":
+                table = np.zeros((len(vs), 2))
+                table[:, 0] = vs
+                table[:, 1] = -1.0
+                arr = table[:, 0]
+            else:
+                arr = np.array(vs, dtype=float)
+            if form == "readonly":
+                arr.setflags(write=False)
+            given = [float(x) for x in arr]
+            ctx.mon.note("discretize:weights-as-" + form)
+            s0 = sum(Fraction(v) for v in given)
+            for tot in (total, max(1, total // 2 + 1), total):
+                try:
+                    res = scale_and_discretize(arr, tot)
+                except Exception as e:
+                    ctx.check("discretize-array-weights", False, f"scale_and_discretize(<{form} array> {given!r}, {tot}) raised {e!r}")
+                    break
+                # judged against the weights the caller GAVE (the array is the caller's; whatever it holds after a
+                # call, the caller's next call means the same weights)
+                ok = _seq(res) and len(res) == len(given) and all(_is_int(x) for x in res) and sum(int(x) for x in res) == tot \
+                    and all(abs(Fraction(int(x)) - Fraction(v) * tot / s0) < 1 + Fraction(1, 10**9) for x, v in zip(res, given))
+                ctx.check("discretize-array-weights", ok,
+                          lambda: f"scale_and_discretize(<{form} array> given as {given!r}, {tot}) = {list(res)!r} "
+                                  f"(array now holds {[float(x) for x in arr]!r})")
+                if not ok:
+                    break
+            return
         arg = list(vs) if form == "list" else tuple(vs) if form == "tuple" else [np.float64(v) for v in vs]
         scale_and_discretize(arg, total)
         return
